@@ -3,11 +3,17 @@
 package btree
 
 // C10: real btrees (bulk Builder + MergeAndSave batches, several SetSplit values) against the
-// map-level Lean model (Q lines) and direct oracles on a Go map: Lookup exact, iteration in both
+// Lean models (Q lines) and direct oracles on a Go map: Lookup exact, iteration in both
 // directions exact and strictly sorted, Check() passes with the right count, RangeFrac in [0,1].
+// Q lines: build/merge/iter/lookup (content model), leaves (leaf packing), and — against the
+// abstract B+-tree the driver keeps (bulkBuild / mergeBatch) — shape (every leaf: stored prefix
+// length, key count, byte size; every separator; after every build and every merge), tlookup
+// (Lookup by descent), leafcodec (stored leaf nodes byte for byte through the model's codec),
+// rangefrac (RangeFrac on the rational model, 1/10000 buckets).
 
 import (
 	"fmt"
+	"math"
 	"math/rand"
 	"sort"
 	"strings"
@@ -214,6 +220,42 @@ func c10shape(bt *T) string {
 	}
 	walk(0, bt.root)
 	return sb.String()
+}
+
+// c10dyadic: a float64 as "mantissa exponent" (exactly m * 2^e)
+func c10dyadic(f float64) string {
+	if math.IsNaN(f) || math.IsInf(f, 0) || f == 0 {
+		return "0 0"
+	}
+	fr, ex := math.Frexp(f)
+	return fmt.Sprintf("%d %d", int64(fr*(1<<53)), ex-53)
+}
+
+// c10fanouts: the two average fanouts rangeFrac computes (at the root, and after fattenRoot),
+// with the expressions of rangefrac.go
+func c10fanouts(bt *T) (fanA, fanB float64) {
+	if bt.treeLevels == 0 {
+		return 0, 0
+	}
+	nkeys := bt.count
+	root := bt.readTree(bt.root)
+	n := root.noffs()
+	if bt.treeLevels == 1 {
+		fanA = float64(nkeys) / (float64(n) - 0.5)
+	} else {
+		fanA = math.Pow(float64(nkeys)/(float64(n)-0.5), 1.0/float64(bt.treeLevels))
+	}
+	m := 0
+	for i := 0; i < n; i++ {
+		m += bt.readNode(1, root.offset(i)).noffs()
+	}
+	fanB = math.Pow(float64(nkeys)/(float64(m)), 1.0/float64(bt.treeLevels-1))
+	return
+}
+
+// c10fracBucket: the 1/10000 bucket of a fraction (same offset as the driver)
+func c10fracBucket(f float64) int64 {
+	return int64(math.Floor(f*10000 + 0.3819660112501051))
 }
 
 // c10leafQ: some stored leaf nodes, byte for byte, against the leaf codec of the model
@@ -642,6 +684,11 @@ func c10check(tr *lib.Trace, bt *T, model map[string]uint64, hist, op string, r 
 		if org == ixkey.Min && end == ixkey.Max && f != 1 {
 			tr.Fail("rangefrac-all", fmt.Sprintf("%s :: RangeFrac(all) = %v", hist, f))
 			return false
+		}
+		{ // the rational model of rangeFrac on the abstract tree
+			fanA, fanB := c10fanouts(bt)
+			tr.Q(fmt.Sprintf("rangefrac %d %s %s %s %s", bt.count, lib.X(org), lib.X(end),
+				c10dyadic(fanA), c10dyadic(fanB)), fmt.Sprint(c10fracBucket(f)))
 		}
 		tr.Count("rangefrac")
 	}
